@@ -28,7 +28,7 @@ from hypothesis import strategies as st
 import nfc.llcp
 
 from vlib import p2p, ref_llcp as ref, ref_window, vsched
-from vlib.engine import HarnessError, Leg, Violation, unexpected
+from vlib.engine import HarnessError, Leg, Violation, unexpected, twin_env
 from vlib.llcpair import DATA_LINK_CONNECTION, LlcPair, other
 
 PROPERTY = "C05"
@@ -1593,3 +1593,10 @@ LEGS = [
              "drawn choice list of up to 600 decisions; non-trivial = >=17 "
              "messages one way or traffic both ways or RNR on the wire."),
 ]
+
+# the same searches with every nfc logger enabled down to the lowest level
+# (code that only runs, or only evaluates its arguments, when logging is on)
+_byl = dict((lg.name, lg) for lg in LEGS)
+LEGS += [twin_env(_byl[n], "log", {"VERIF_LOG": "debug"}, quick=q, thorough=t,
+                  shards_quick=2)
+         for n, q, t in [('machine', 150, 1500)] if n in _byl]
